@@ -60,7 +60,7 @@ public:
     QString describe() const override
     {
         return QStringLiteral("real: QXmppTransferManager (stream initiation, in-band bytestreams, size/hash verification), QXmppTransferIncomingJob/OutgoingJob, QXmppClient ; "
-                              "stub: transport, ScriptedServer relaying to a scripted IBB peer (sender with arbitrary block size and faults on the block sequence, or receiver), FaultyBuffer device ; SOCKS5 bytestreams are not simulated");
+                              "stub: transport, ScriptedServer relaying to a scripted IBB peer (sender with arbitrary block size and faults on the block sequence, or receiver), FaultyBuffer device ; or (15 %) a second real client with its own transfer manager reached through a faulty relay ; SOCKS5 bytestreams are not simulated");
     }
 
     Plan generate(quint64 seed, const QString &tier) override
@@ -73,10 +73,10 @@ public:
         k[QStringLiteral("sm")] = r.chance(0.3) ? 1 : 0;
         k[QStringLiteral("autoAck")] = 1;
         k[QStringLiteral("autoReconnect")] = 0;
-        const int topo = r.weighted({ 70, 30 });   // 0: scripted sender -> real receiver, 1: real sender -> scripted receiver
+        const int topo = r.weighted({ 60, 25, 15 });   // 0: scripted sender -> real receiver, 1: real sender -> scripted receiver, 2: real sender -> real receiver through a faulty relay
         k[QStringLiteral("topology")] = topo;
         const int drawn = r.pick(QVector<int> { 1, 2, 3, 7, 16, 64, 255, 256, 1000, 4096 });
-        const int block = topo == 1 ? 4096 : drawn;
+        const int block = topo >= 1 ? 4096 : drawn;
         k[QStringLiteral("block")] = block;
         int size;
         switch (r.uniform(8)) {
@@ -120,7 +120,7 @@ public:
             QObject ctx;
             const int topology = (int)plan.knob(QStringLiteral("topology"));
             // the real sender always uses 4096-byte blocks
-            const int block = plan.knob(QStringLiteral("topology")) == 1 ? 4096 : (int)std::max<qint64>(1, plan.knob(QStringLiteral("block"), 4096));
+            const int block = plan.knob(QStringLiteral("topology")) >= 1 ? 4096 : (int)std::max<qint64>(1, plan.knob(QStringLiteral("block"), 4096));
             const int size = (int)plan.knob(QStringLiteral("size"));
             const int announce = (int)plan.knob(QStringLiteral("announce"));
             int fault = (int)plan.knob(QStringLiteral("fault"));
@@ -146,6 +146,12 @@ public:
                 fault = 0;   // nothing to tamper with
             }
 
+            if (topology == 2) {
+                runTwoClients(plan, tr, res, w, file, md5, nBlocks, announce, fault, faultAt);
+                res.traceHash = tr.hash.value();
+                res.trace = tr.lines;
+                return res;
+            }
             w.createClient(QXmppClient::NoExtensions);
             auto *tm = w.client->addNewExtension<QXmppTransferManager>();
             tm->setSupportedMethods(QXmppTransferJob::InBandMethod);
@@ -512,6 +518,168 @@ public:
         res.trace = tr.lines;
         return res;
     }
+    // topology 2: two real clients, each with a real transfer manager and its own scripted server; the servers relay the
+    // stanzas addressed to the other account, and the relay is where the faults happen
+    void runTwoClients(const Plan &plan, Trace &tr, RunResult &res, SessionWorld &wa, const QByteArray &file, const QByteArray &md5, int nBlocks, int announce, int fault, int faultAt)
+    {
+        Plan planB = plan;
+        planB.sknobs[QStringLiteral("user")] = QStringLiteral("bob");
+        planB.sknobs[QStringLiteral("resource")] = QStringLiteral("desk");
+        planB.knobs[QStringLiteral("otherJid")] = 0;
+        SessionWorld wb(planB, tr, res);
+        QObject ctx;
+        wa.createClient(QXmppClient::NoExtensions);
+        wb.createClient(QXmppClient::NoExtensions);
+        auto *tmA = wa.client->addNewExtension<QXmppTransferManager>();
+        auto *tmB = wb.client->addNewExtension<QXmppTransferManager>();
+        tmA->setSupportedMethods(QXmppTransferJob::InBandMethod);
+        tmB->setSupportedMethods(QXmppTransferJob::InBandMethod);
+        FaultyBuffer sink;
+        sink.open(QIODevice::ReadWrite);
+        bool inFinished = false, outFinished = false;
+        int inError = -1, outError = -1;
+        QPointer<QXmppTransferJob> inJob;
+        QObject::connect(tmB, &QXmppTransferManager::fileReceived, &ctx, [&](QXmppTransferJob *j) {
+            inJob = j;
+            QObject::connect(j, &QXmppTransferJob::finished, &ctx, [&, j] {
+                inFinished = true;
+                inError = (int)j->error();
+            });
+            j->accept(&sink);
+        });
+        struct Relayed {
+            int dir;   // 0: A -> B, 1: B -> A
+            QByteArray xml;
+        };
+        QList<Relayed> inTransit;
+        QString fullA, fullB;
+        auto hook = [&](int dir, const QString &peerFull) {
+            return [&, dir, peerFull](ServerConn &c, const QDomElement &el, const QByteArray &raw) {
+                Q_UNUSED(peerFull);
+                const QString to = el.attribute(QStringLiteral("to"));
+                if (to == (dir == 0 ? fullB : fullA) && !to.isEmpty()) {
+                    // the server stamps the sender's address
+                    QByteArray x = raw;
+                    const QByteArray stamp = " from='" + c.fullJid.toUtf8() + "'";
+                    const int sp = x.indexOf(' ');
+                    if (!x.contains(" from=") && sp > 0) {
+                        x.insert(sp, stamp);
+                    }
+                    inTransit.append({ dir, x });
+                    return true;
+                }
+                return false;
+            };
+        };
+        for (const auto &op : plan.ops) {
+            if (op.kind != QLatin1String("transfer")) {
+                wa.applyCommon(op);
+                wb.applyCommon(op);
+            }
+        }
+        if (!wa.client->isConnected() || !wb.client->isConnected()) {
+            res.probes[QStringLiteral("session_not_established")]++;
+            return;
+        }
+        fullA = wa.server->current()->fullJid;
+        fullB = wb.server->current()->fullJid;
+        wa.server->onSessionStanza = hook(0, fullB);
+        wb.server->onSessionStanza = hook(1, fullA);
+        QBuffer src;
+        src.setData(file);
+        src.open(QIODevice::ReadOnly);
+        QXmppTransferFileInfo info;
+        info.setName(QStringLiteral("f.bin"));
+        if (announce == 0 || announce == 1) {
+            info.setSize(file.size());
+        }
+        if (announce == 0 || announce == 2) {
+            info.setHash(md5);
+        }
+        QXmppTransferJob *out = tmA->sendFile(fullB, &src, info);
+        QObject::connect(out, &QXmppTransferJob::finished, &ctx, [&] {
+            outFinished = true;
+            outError = (int)out->error();
+        });
+        const int at = nBlocks ? faultAt % nBlocks : 0;
+        int dataSeen = 0, ackSeen = 0;
+        bool faultFired = false;
+        const bool hashAnnounced = announce == 0 || announce == 2;
+        for (int guard = 0; guard < 4000; ++guard) {
+            wa.pump(nullptr);
+            wb.pump(nullptr);
+            if (inTransit.isEmpty()) {
+                break;
+            }
+            Relayed r = inTransit.takeFirst();
+            const bool isData = r.dir == 0 && r.xml.contains("<data ");
+            const bool isAck = r.dir == 1 && r.xml.contains("type=\"result\"") && !r.xml.contains("<si ");
+            bool drop = false, twice = false;
+            if (isData) {
+                if (dataSeen == at) {
+                    if (fault == 1) {
+                        drop = true;
+                        res.faults[QStringLiteral("relay_drops_block")]++;
+                    } else if (fault == 2) {
+                        twice = true;
+                        res.faults[QStringLiteral("relay_duplicates_block")]++;
+                    } else if (fault == 4 && hashAnnounced) {
+                        const int p0 = r.xml.indexOf('>', r.xml.indexOf("<data ")) + 1;
+                        if (p0 > 0 && p0 < r.xml.size() - 8) {
+                            r.xml[p0] = r.xml[p0] == 'A' ? 'B' : 'A';   // another base64 symbol: other bytes
+                            res.faults[QStringLiteral("relay_alters_block")]++;
+                            faultFired = true;
+                        }
+                    } else if (fault == 8) {
+                        wa.cutLink();
+                        res.faults[QStringLiteral("link_cut_mid_transfer")]++;
+                        faultFired = true;
+                    }
+                }
+                ++dataSeen;
+            } else if (isAck) {
+                if (ackSeen == at + 2 && fault == 5) {   // +2: the answers to the offer and to <open/>
+                    drop = true;
+                    res.faults[QStringLiteral("relay_drops_acknowledgement")]++;
+                }
+                ++ackSeen;
+            }
+            faultFired = faultFired || drop || twice;
+            if (drop) {
+                continue;
+            }
+            for (int n = 0; n < (twice ? 2 : 1); ++n) {
+                if (auto *c = (r.dir == 0 ? wb : wa).server->current()) {
+                    c->sendStanza(r.xml);
+                }
+            }
+        }
+        settle();
+        if (inJob && inFinished && (int)inJob->error() != inError && inJob->error() == QXmppTransferJob::NoError) {
+            inError = (int)QXmppTransferJob::NoError;
+        }
+        const bool exact = sink.data == file;
+        tr.log(QStringLiteral("two clients: sender finished=%1 error=%2, receiver finished=%3 error=%4 got %5/%6 exact=%7").arg(outFinished).arg(outError).arg(inFinished).arg(inError).arg(sink.data.size()).arg(file.size()).arg(exact));
+        if (inFinished && inError == QXmppTransferJob::NoError && !exact) {
+            res.violations.append(Violation { QStringLiteral("success_with_wrong_bytes"), QStringLiteral("C19:receiver_reports_success_but_copy_differs:two_clients:fault%1").arg(fault),
+                                              QStringLiteral("two real clients: the receiver finished with NoError but holds %1 bytes that differ from the %2 bytes sent (relay fault %3 at block %4)").arg(sink.data.size()).arg(file.size()).arg(fault).arg(at), 0 });
+        }
+        if (!faultFired && (!inFinished || !outFinished || inError != QXmppTransferJob::NoError || outError != QXmppTransferJob::NoError || !exact)) {
+            res.violations.append(Violation { QStringLiteral("fault_free_transfer_failed"), QStringLiteral("C19:fault_free_transfer_between_two_clients_did_not_succeed"),
+                                              QStringLiteral("no fault was injected, yet sender finished=%1 error=%2, receiver finished=%3 error=%4, %5/%6 bytes, exact=%7").arg(outFinished).arg(outError).arg(inFinished).arg(inError).arg(sink.data.size()).arg(file.size()).arg(exact), 0 });
+        }
+        for (const auto &v : std::as_const(res.violations)) {
+            tr.log(QStringLiteral("VIOLATION ") + v.signature);
+        }
+        res.nontrivial = faultFired || nBlocks >= 2;
+        res.steps = dataSeen + ackSeen + 3;
+        res.caseKey = QStringLiteral("t2|%1|%2|%3|%4").arg(file.size()).arg(announce).arg(fault).arg(faultAt);
+        wa.client->disconnectFromServer();
+        wb.client->disconnectFromServer();
+        wa.pump(nullptr);
+        wb.pump(nullptr);
+    }
+
     bool removable(const Plan &, int) override { return false; }
     QVector<Plan> simplerKnobs(const Plan &p) override
     {
